@@ -94,6 +94,14 @@ class Lin(Aff):
         if root is None:
             return TOP
         kind, l, path = root
+        # an element of `slice.windows(K)` is a slice of exactly K elements
+        try:
+            dsc = flow.describe(self.b, op if isinstance(op, dict) and ("c" in op or "m" in op or "k" in op) else {"c": op})
+        except Exception:
+            dsc = ""
+        mw = re.search(r"next\(.*windows\(.*, K(\d+)\)", dsc)
+        if mw and not re.search(r"windows\(.*, K\d+\).*windows\(", dsc):
+            return aff_const(int(mw.group(1)))
         if kind == "local":
             m = re.match(r"^(?:&(?:mut )?)*\[[^;\]]+; (\d+)\]$", flow.strip_lifetimes(self.b.local_ty(l)))
             if m:
